@@ -24,6 +24,9 @@ CHECKS["C05"] = ("differential testing of generated try/catch/finally programs a
 CHECKS["C06"] = ("exhaustive shape x aliasing-route x mutation x side matrix with in-run before/after snapshots against a Go model of each mutation; rapid random shapes",
          "Seven shapes x eleven routes (assign, by-value parameter, return, static-local return, property store/read, outer-array store/read, clone; positive controls & reference and object handle) x thirteen mutations x mutated side, complete in both tiers, plus random shapes: the untouched name keeps its deep snapshot, the mutated name shows exactly the model's effect, explicit sharing must write through.",
          "Snapshots compared modulo integer keys; positional mutations on string-keyed literals (object-like values in origami) are not asserted.")
+CHECKS["C07"] = ("exhaustive decision-table testing: generated class fixtures for every (member kind x modifier x static-ness x access site x operation) and (declared type x value kind x boundary) cell, judged against the statement's table",
+         "Complete cross product of visibility cells (9 access sites incl. closures, dynamic names and parent::, two hierarchy depths) and of type cells (10 declared types x 11 value kinds x 7 boundaries) plus abstract/interface instantiation; a denied access / foreign value must raise a catchable error and leave the member unchanged, an allowed access / value of the type must go through unchanged.",
+         "Coercible scalar-to-scalar combinations are recorded, not judged; every cell runs as its own script on a fresh VM.")
 NOT_YET = {
 }
 
